@@ -36,8 +36,9 @@ RULE = ("call histories drawn from a grammar: Integrate(k) with k in 0..remainin
         "sizes that end just below / at / just above the current capacity and twice the capacity), "
         "Predict(next | foreign | already used increment), GetPva, GetTime, SetPva(random pva with VD != 0); "
         "INITIAL_SIZE in {1,2,3,5,8,10000}; both altitude modes; ~40 % of the increment tables store their labelled "
-        "columns in a permuted order (half of those with an unrelated extra column), ~30 % of the histories supply every pva as an "
-        "int64 Series of whole numbers (labels define the meaning: the model is unchanged); increments with both branches of "
+        "columns in a permuted order (half of those with an unrelated extra column), ~40 % of the histories supply all or a "
+        "random subset of their pvas as int64 Series of whole numbers, half spell with_altitude as numpy.bool_ or int "
+        "(labels and values define the meaning: the model is unchanged); increments with both branches of "
         "mat_from_rotvec; thorough adds every history of <= 5 ops over {I0,I1,I2,I3,Pnext,Pforeign,S} at "
         "capacity 2 (2D) and 3 (3D), <= 4 ops for the other two mode/capacity pairs.  A case is distinct by (mode, capacity, op sequence); non-trivial if it "
         "integrates at least one increment")
@@ -74,10 +75,11 @@ def make_data(h):
         rs.uniform(-50, 50, npva), rs.uniform(-50, 50, npva),
         rs.choice([-1, 1], npva) * rs.uniform(0.5, 8, npva),
         rs.uniform(-180, 180, npva), rs.uniform(-80, 80, npva), rs.uniform(-180, 180, npva)])
-    ipva = bool(h.get('ipva'))
-    if ipva:                                  # whole numbers, handed over as int64 Series
-        pv = np.round(pv) + 0.0          # (+ 0.0: no negative zeros, int64 cannot carry them)
-        pv[:, 5] = np.where(pv[:, 5] == 0, 1.0, pv[:, 5])
+    ipva = int_pvas(h)                        # ids of the pvas handed over as int64 Series of whole numbers
+    for k in ipva:
+        pv[k] = np.round(pv[k]) + 0.0         # (+ 0.0: no negative zeros, int64 cannot carry them)
+        if pv[k, 5] == 0:
+            pv[k, 5] = 1.0
     order = list(INC_COLS)
     if h.get('cols'):                         # labelled columns stored in another order + an unrelated column
         rc = np.random.RandomState(int(h['cols']) % (2 ** 31))
@@ -87,6 +89,21 @@ def make_data(h):
         if int(h['cols']) % 2:                # odd: additionally an unrelated column somewhere
             order.insert(int(rc.randint(0, 8)), EXTRA_COL)
     return dict(t0=t0, table=table, labels=labels, pvas=pv, cols=TRAJECTORY_COLS, ipva=ipva, order=order)
+
+
+def int_pvas(h):
+    """history field `ipva`: True = every pva, or a bit mask over the pva ids (mixed representations)"""
+    m = h.get('ipva', 0)
+    if m is True:
+        return set(range(h['npva']))
+    return {k for k in range(h['npva']) if (int(m) >> k) & 1}
+
+
+def alt_value(h):
+    """history field `flag`: how the with_altitude switch is spelled: bool, numpy.bool_, or int 0/1"""
+    a = bool(h['alt'])
+    f = h.get('flag', 0)
+    return a if f == 0 else (np.bool_(a) if f == 1 else int(a))
 
 
 def inc_frame(d, ids):
@@ -110,7 +127,7 @@ def inc_series(d, i):
 
 def pva_series(d, k, label):
     vals = d['pvas'][k].copy()
-    if d['ipva']:
+    if k in d['ipva']:
         vals = vals.astype(np.int64)
     return pd.Series(vals, index=d['cols'], name=label * LABEL)
 
@@ -162,9 +179,11 @@ def gen_history(rng, force=None):
         else:
             ops.append(['S', 1 + rng.randrange(npva - 1)])
     cols = force.get('cols', rng.randrange(1, 2 ** 20) if rng.random() < 0.4 else 0)
-    ipva = force.get('ipva', rng.random() < 0.3)
+    u = rng.random()                           # none / all / a random mix of int64 and float pvas
+    ipva = force.get('ipva', 0 if u < 0.6 else ((1 << npva) - 1 if u < 0.75 else rng.randrange(1, 1 << npva)))
+    flag = force.get('flag', rng.choice([0, 0, 1, 2]))
     return dict(alt=bool(alt), cap=int(cap), seed=rng.randrange(2 ** 30), n=n, nf=nf, npva=npva, ops=ops,
-                cols=int(cols), ipva=bool(ipva))
+                cols=int(cols), ipva=ipva, flag=int(flag))
 
 
 def exhaustive_histories(cap, alt, maxlen=5):
@@ -184,11 +203,12 @@ def exhaustive_histories(cap, alt, maxlen=5):
                     ops.append(['S', 1])
             sc = sum(combo) + ln
             yield dict(alt=alt, cap=cap, seed=1000 * cap + 17 * ln + sum(combo), n=n, nf=1, npva=2,
-                       ops=ops + [['G'], ['T']], cols=(100 + sc) if sc % 3 == 0 else 0, ipva=(sc % 4 == 1))
+                       ops=ops + [['G'], ['T']], cols=(100 + sc) if sc % 3 == 0 else 0, ipva=sc % 4, flag=sc % 3)
 
 
 def hist_key(h):
-    return (h['alt'], h['cap'], bool(h.get('cols')), bool(h.get('ipva')), tuple(tuple(o) for o in h['ops']))
+    return (h['alt'], h['cap'], bool(h.get('cols')), h.get('ipva', 0), h.get('flag', 0),
+            tuple(tuple(o) for o in h['ops']))
 
 
 # ---------------------------------------------------------------------------
@@ -236,7 +256,7 @@ def run_real(h, d, deep=True):
     out = dict(ok=True, obs=[], extra=[], klog=log)
     try:
         with instrumented(h['cap'], log):
-            it = strapdown.Integrator(pva_series(d, 0, d['t0']), with_altitude=h['alt'])
+            it = strapdown.Integrator(pva_series(d, 0, d['t0']), with_altitude=alt_value(h))
             cursor = 0
             for o in h['ops']:
                 if o[0] == 'I':
@@ -283,7 +303,7 @@ def run_real(h, d, deep=True):
                        columns=list(it.trajectory.columns),
                        cap=len(it.lla), caps=(len(it.lla), len(it.velocity_n), len(it.mat_nb)),
                        lla=it.lla.copy(), vel=it.velocity_n.copy(), mat=it.mat_nb.copy(),
-                       with_altitude=it.with_altitude)
+                       with_altitude=bool(it.with_altitude))
     except Exception as e:                                      # any legal history must run
         out.update(ok=False, error=f"{type(e).__name__}: {e}", tb=traceback.format_exc()[-1500:])
     return out
@@ -318,7 +338,7 @@ def statement_failures(h, d, real):
     label = d['t0'] * LABEL
     segs = segments(h)
     log = []
-    dc = dict(d, ipva=False, order=list(INC_COLS))
+    dc = dict(d, ipva=set(), order=list(INC_COLS))
     try:
         with instrumented(10000, log):
             for k, (pid, ids, _) in enumerate(segs):
@@ -432,10 +452,16 @@ def shrink(h, pred=None, budget=400):
             if pred(c):
                 h, changed = normalise(c), True
                 break
-    for key, plain in (('cols', 0), ('ipva', False)):
+    for key in ('cols', 'ipva', 'flag'):
         if h.get(key):
             c = copy.deepcopy(h)
-            c[key] = plain
+            c[key] = 0
+            if pred(c):
+                h = normalise(c)
+    if h.get('ipva'):                          # mixed representations: keep only the pvas that matter
+        for k in sorted(int_pvas(h)):
+            c = copy.deepcopy(h)
+            c['ipva'] = sum(1 << j for j in int_pvas(h) if j != k)
             if pred(c):
                 h = normalise(c)
     used = sum(o[1] for o in h['ops'] if o[0] == 'I')
@@ -824,6 +850,12 @@ def corpus(modes=(True, False)):
                         ops=[['G'], ['S', 2], ['G'], ['P', 0], ['I', 2], ['S', 1], ['I', 3], ['G'], ['T']]))
         out.append(dict(alt=alt, cap=1, seed=15, n=4, nf=1, npva=3, cols=98, ipva=True,
                         ops=[['P', 0], ['I', 2], ['S', 1], ['P', 2], ['I', 2], ['G']]))
+        # int64 initial state overwritten by a float state before any integrate (fix 9491288) and the reverse;
+        # the switch spelled numpy.bool_ / int
+        out.append(dict(alt=alt, cap=2, seed=16, n=3, nf=1, npva=3, cols=0, ipva=0b001, flag=1,
+                        ops=[['S', 1], ['G'], ['P', 0], ['I', 2], ['S', 2], ['I', 1], ['G']]))
+        out.append(dict(alt=alt, cap=2, seed=17, n=3, nf=1, npva=3, cols=0, ipva=0b110, flag=2,
+                        ops=[['G'], ['S', 1], ['G'], ['I', 1], ['S', 2], ['P', 1], ['I', 2], ['T']]))
     return out
 
 
@@ -1002,7 +1034,10 @@ def distribution(results):
         caps[h['cap']] += 1
         modes['3D' if h['alt'] else '2D'] += 1
         modes['permuted increment columns + extra column'] += 1 if h.get('cols') else 0
-        modes['int64 whole-number pva'] += 1 if h.get('ipva') else 0
+        ip = int_pvas(h)
+        modes['int64 whole-number pvas: all'] += 1 if len(ip) == h['npva'] else 0
+        modes['int64 whole-number pvas: mixed with float'] += 1 if 0 < len(ip) < h['npva'] else 0
+        modes['with_altitude spelled ' + ['bool', 'numpy.bool_', 'int'][h.get('flag', 0)]] += 1
         grow[min(x['growth'], 4)] += 1
         for o in h['ops']:
             ops[o[0]] += 1
